@@ -5,8 +5,11 @@ package main
 // bounds of the TLC configurations; the trace specification decides.
 
 import (
+	"bytes"
+	"encoding/json"
 	"fmt"
 	"math/rand"
+	"strings"
 )
 
 func bs(s string) []any { return bytesJSON(s) }
@@ -676,7 +679,94 @@ func padTags(r *rand.Rand, nodes []any) {
 	}
 }
 
+// lastOmni: the case generated before this one.  Every fifth case is a near twin of its predecessor - the same program
+// with the white space or the letter case inside its string literals and texts changed - so that sources which a
+// careless cache key would conflate meet in one process, each with its own expected result.
+var lastOmni J
+
+func nearTwin(c J, r *rand.Rand) J {
+	b, _ := json.Marshal(c)
+	var twin J
+	dec := json.NewDecoder(bytes.NewReader(b))
+	dec.UseNumber()
+	if dec.Decode(&twin) != nil {
+		return nil
+	}
+	mode := r.Intn(4)
+	change := func(s string) string {
+		switch mode {
+		case 0:
+			return strings.ReplaceAll(s, " ", "  ")
+		case 1:
+			return strings.ReplaceAll(s, " ", "\t")
+		case 2:
+			return strings.Map(func(c rune) rune {
+				switch {
+				case c >= 'a' && c <= 'z':
+					return c - 32
+				case c >= 'A' && c <= 'Z':
+					return c + 32
+				}
+				return c
+			}, s)
+		default:
+			return s + " "
+		}
+	}
+	changed := false
+	var walk func(x any)
+	walk = func(x any) {
+		switch v := x.(type) {
+		case []any:
+			for _, e := range v {
+				walk(e)
+			}
+		case map[string]any:
+			if jstr(v, "t") == "lit" {
+				if lv := jobj(v["v"]); jstr(lv, "k") == "str" {
+					if s := bytesOf(lv["v"]); change(s) != s {
+						lv["v"] = bs(change(s))
+						changed = true
+					}
+				}
+				return
+			}
+			if jstr(v, "t") == "text" {
+				if s := bytesOf(v["s"]); change(s) != s && !strings.ContainsAny(s, "{}%") {
+					v["s"] = bs(change(s))
+					changed = true
+				}
+				return
+			}
+			for k, e := range v {
+				if k != "env" && k != "repr" && k != "files" && k != "cache" {
+					walk(e)
+				}
+			}
+		}
+	}
+	walk(twin["prog"])
+	if !changed {
+		return nil
+	}
+	delete(twin, "id")
+	return twin
+}
+
 func genOmni(r *rand.Rand, i int) J {
+	if i%5 == 4 && lastOmni != nil {
+		if twin := nearTwin(lastOmni, r); twin != nil {
+			if _, err := newPrinter(spellFromJSON(twin["spell"])).Template(jarr(twin, "prog")); err == nil {
+				return twin
+			}
+		}
+	}
+	c := genOmniFresh(r, i)
+	lastOmni = c
+	return c
+}
+
+func genOmniFresh(r *rand.Rand, i int) J {
 	g := &pgen{r: r, trims: r.Intn(4) == 0, budget: 14 + r.Intn(22), rich: true, hasInc: r.Intn(4) == 0}
 	env, repr := g.richEnv()
 	if g.hasInc {
